@@ -23,7 +23,7 @@ THEOREMS = [
     # laws of the L1 spec
     "where_keeps_only_true", "null_never_equal", "null_never_equal_in_join", "agg_skips_nulls", "agg_empty",
     "agg_all_null", "count_distinct_ignores_null", "left_outer_pads", "left_outer_decomp", "right_outer_pads",
-    "distinct_idempotent", "order_is_sorted_perm", "limit_offset_slice",
+    "distinct_idempotent", "orderCmp_laws", "order_is_sorted_perm", "limit_offset_slice",
     # refinement L2 -> L1 per physical operator (hypothesis = where the executor equals the spec)
     "exec_refines_spec_rowpath", "exec_refines_spec_rowpath_sum_partial", "exec_refines_spec_rowpath_sum_unsound",
     "exec_refines_spec_chunkpath_sum_partial", "exec_refines_spec_chunkpath_sum_unsound",
